@@ -198,6 +198,28 @@ def gen(tier, rng, harness, driver):
     return lines
 
 
+def extra(res, findings, tier, rng, harness, driver):
+    """the expected types (LLVMSpec, transcribed by hand from the LangRef) validated against LLVM 14 itself: the instruction with its result USED at the
+    expected type is handed to llvm-as; where LLVM accepts the instruction it must accept the use"""
+    from . import llvmref
+    if not llvmref.available():
+        return {"llvm_reference": {"available": False}}
+    cases = systematic_cases() + [gen_case(rng) for _ in range(300 if tier == "quick" else 6000)]
+    spec = C.run_lines([driver], ["typ.spec %s %s" % (k, " ".join(ts)) for k, ts in cases], shards=8)
+    ops = [("typ.usetext %s %s" % (k, " ".join(ts))).rstrip() + " " + sp for (k, ts), sp in zip(cases, spec) if sp not in ("illtyped", "unknown-op")]
+    outs = C.run_lines([harness, "run"], ops, shards=8)
+    pairs = []
+    for op, o in zip(ops, outs):
+        p = o.split()
+        if len(p) == 2:
+            pairs.append((op, bytes.fromhex(p[0]).decode("latin-1"), bytes.fromhex(p[1]).decode("latin-1")))
+    stats, bad = llvmref.validate_spec(pairs)
+    for name, msg, use in bad:
+        res.violation("LLVMSpec (the typing rule the theorems are stated against) disagrees with LLVM 14: %s: llvm-as rejects the use of the result at the expected type: %s" % (name, msg),
+                      {"ops": [name], "llvm_input": use, "reference": "llvm-as-14"}, found_input=False)
+    return {"llvm_reference": dict(stats, available=True, cases=len(pairs), tool="llvm-as-14", what="LLVMSpec result types used at LLVM's own type check")}
+
+
 def nontrivial(ln, model_out):
     return "(" in ln
 
